@@ -203,6 +203,16 @@ impl Profile {
                 mode: Mode::Tree,
                 ..base
             },
+            // Long histories with many reopen cycles: deep trees through the key-value API.
+            "kvs-deep" => Profile {
+                name: "kvs-deep",
+                min_ops: 150,
+                max_ops: 400,
+                scans: false,
+                verify: false,
+                force_opts: vec![("--memtable-size-bytes", "64")],
+                ..base
+            },
             "kvs-short" => Profile {
                 name: "kvs-short",
                 min_ops: 8,
